@@ -3,6 +3,8 @@ package trav
 import (
 	"strconv"
 
+	"github.com/ipld/go-ipld-prime/datamodel"
+
 	"verif/mc/ref"
 )
 
@@ -11,6 +13,7 @@ type Visit struct {
 	Path   string  `json:"path"`
 	Reason byte    `json:"reason"` // 'm' match, 'x' candidate
 	Node   ref.Val `json:"node"`
+	P      []datamodel.PathSegment `json:"-"` // the real Progress.Path segments (library walks only)
 }
 
 // Graph is a root value plus the blocks reachable through links (by CID binary), as the
@@ -200,6 +203,8 @@ type RefWalk struct {
 	Err    string   // "" or "load-failed"
 	// BlockOf[i] = index into Loads of the block visit i lies in (-1 = root block)
 	BlockOf []int
+	// ParentBlock[j] = index of the block from which load j was made (-1 = root block)
+	ParentBlock []int
 }
 
 type refWalker struct {
@@ -219,9 +224,9 @@ func stopMatches(e *env, v ref.Val) bool {
 
 func (w *refWalker) walk(n ref.Val, acts []active, path string) bool {
 	if m, ok := matchOf(acts, n); ok {
-		w.out.Visits = append(w.out.Visits, Visit{path, 'm', m})
+		w.out.Visits = append(w.out.Visits, Visit{Path: path, Reason: 'm', Node: m})
 	} else {
-		w.out.Visits = append(w.out.Visits, Visit{path, 'x', n})
+		w.out.Visits = append(w.out.Visits, Visit{Path: path, Reason: 'x', Node: n})
 	}
 	w.out.BlockOf = append(w.out.BlockOf, w.cur)
 	if n.K != ref.KList && n.K != ref.KMap {
@@ -294,6 +299,7 @@ func (w *refWalker) walk(n ref.Val, acts []active, path string) bool {
 		saved := w.cur
 		if cv.K == ref.KLink {
 			w.out.Loads = append(w.out.Loads, cv.S)
+			w.out.ParentBlock = append(w.out.ParentBlock, saved)
 			blk, ok := w.g.Blocks[cv.S]
 			if !ok {
 				w.out.Err = "load-failed"
